@@ -534,6 +534,17 @@ class Interp:
             # element of a collected map: the closure body at that index
             _, dom, bound, body = v.term
             return T.subst(body, {bound: idx})
+        if isinstance(v, Sym) and v.term[0] == 'slice' and not v.wr:
+            # element k of base[lo..hi) is element lo+k of base
+            _, base, lo, hi = v.term
+            ety0 = self.elem_ty(v.ty)
+            t0 = ('elem', base, T.mk_add(lo, idx))
+            key0 = ('#elem', idx)
+            if key0 in v.over:
+                return v.over[key0]
+            val0 = self.sym_value(st, t0, ety0)
+            v.over[key0] = val0
+            return val0
         if isinstance(v, Sym):
             ety = self.elem_ty(v.ty)
             t = ('elem', v.term, idx)
